@@ -495,7 +495,7 @@ class Executor:
         self.const_cache = {}
         self.stats = {'paths': 0, 'forks': 0, 'steps': 0, 'infeasible': 0}
         self.deadline = time.time() + timeout_s if timeout_s else None
-        from . import models, models_iter
+        from . import models, models_iter, models_map
         self.all_orders = False
         self.models = models.REGISTRY
         self.model_pats = models.PATTERNS
@@ -625,7 +625,7 @@ class Executor:
             if k == 'deref':
                 v = cur.get(st)
                 if isinstance(v, Ptr):
-                    cur = SlotLV(v.cont, v.key, None)
+                    cur = SlotLV(v.cont, v.key, getattr(v, 'ty', None))
                 elif isinstance(v, Struct) and 'data' in v.fields and isinstance(v.fields['data'], Cell):
                     cur = SlotLV(v.fields['data'], 0, None)
                 else:
